@@ -1,6 +1,8 @@
 (* C02 -- the traversal and depth limits bound all work done on a hostile message.
-   Statements only; each is closed by [exact] of a lemma proved in Core/LimitProofs.v and
-   Core/CanReadProofs.v.
+   Statements only; each is closed by [exact] of a lemma proved in Core/LimitProofs.v,
+   Core/CanReadProofs.v, Value/EqualSafe.v, Value/EqualAcct.v, Value/CanonSafe.v, Value/CanonAlloc.v,
+   Core/CopySafe.v, Core/CopyAlloc.v.  NOT covered by any theorem here: the bounds for text.Marshal
+   and pogs.Extract (C19 / C20 runs only, see LEVEL_NOTE in props/C02.py).
 
    Standing assumptions (trusted base): as for C01 where a theorem asks for [msg_ok];
    uint is 64 bits; D = depth_limit c >= 1 (cfg_D = 0 selects the default 64: depth_limit_pos),
